@@ -99,7 +99,7 @@ def run(ctx, col, tier):
 
     names_cls, fields = names_fields(ctx)
     col.guard(r_table, ctx, col, names_cls, fields)
-    reader_pat = r_fmt(ctx, col, fields, tier)
+    reader_pat = col.guard(r_fmt, ctx, col, fields, tier)
     col.guard(r_nl, ctx, col)
     col.guard(r_hdr, ctx, col, names_cls, reader_pat)
     col.guard(r_sent, ctx, col, names_cls)
@@ -601,6 +601,18 @@ def r_nl(ctx, col):
         if isinstance(n, ast.Yield):
             v = n.value
             r = ends_with(v, "\n") if v is not None else False
+            if r is None and isinstance(v, ast.Call) and isinstance(v.func, ast.Attribute) and v.func.attr == "join" \
+                    and v.args and isinstance(v.args[0], (ast.GeneratorExp, ast.ListComp)):
+                # sep.join(f(..) for ..): ends like its last element; a local formatter whose returns are
+                # formatted numbers (f"{v:<spec>}", str(v)) never ends in a newline
+                elt = v.args[0].elt
+                if isinstance(elt, ast.Call) and isinstance(elt.func, ast.Name) and elt.func.id in w.nested:
+                    f = w.nested[elt.func.id]
+                    rv = [x.value for x in own_nodes(f) if isinstance(x, ast.Return) and x.value is not None]
+                    numeric = lambda e: (isinstance(e, ast.Call) and dotted(e.func) in ("str", "repr", "format")) or \
+                        (isinstance(e, ast.JoinedStr) and len(e.values) == 1 and isinstance(e.values[0], ast.FormattedValue))
+                    if rv and all(numeric(e) for e in rv):
+                        r = False
             if r is None:
                 col.unresolved("R-NL", w.qualname, w.loc(n), norm_src(n), "cannot fold the suffix",
                                stmt=n)
